@@ -84,7 +84,11 @@ def fd_check(ctx, clause, key, f, x_parts, seed, signature=None, ndir=8, eps=1e-
             minus, _ = S([p - eps * d for p, d in zip(x_parts, dirs)], w)
         fd = float((plus - minus) / (2 * eps))
         an = float(sum((gr * d).sum() for gr, d in zip(grads, dirs)))
-        scale = max(abs(fd), abs(an), 1e-9 * float(w.abs().sum()))
+        # the comparison is relative to the size a directional derivative can have here (Cauchy-Schwarz), so that a
+        # direction that happens to be almost orthogonal to the gradient is not judged on float32 rounding noise
+        gnorm = math.sqrt(sum(float((gr**2).sum()) for gr in grads))
+        dnorm = math.sqrt(sum(float((d**2).sum()) for d in dirs))
+        scale = max(abs(fd), abs(an), 1e-2 * gnorm * dnorm, 1e-12)
         # generic kink guard: a smooth neighbourhood gives the same central difference at eps and eps/4
         with torch.no_grad():
             p4, _ = S([p + eps / 4 * d for p, d in zip(x_parts, dirs)], w)
@@ -304,6 +308,28 @@ def run_unit(ctx, u):
         if verdict:
             bad_nonfinite = [k_ for k_, v in verdict.items() if "nonfinite" in v]
             never = [k_ for k_, v in verdict.items() if all(s_ in ("none", "zero") for s_ in v)]
+            if never and size // meta["stride"] < 2:
+                # a 1x1 latent leaves most 3x3 taps and whole ReLU branches without data: zero gradients there are
+                # an artefact of the degenerate size, not of the pipeline
+                ctx.skip("latent smaller than 2x2: per-parameter gradient clause not judged")
+                never = []
+            extra = 0
+            while never and extra < 6:
+                # dead-ReLU guard: a parameter only counts as 'never reached' if it stays at zero over further seeds
+                extra += 1
+                enc2, _, fwd2, _, meta2 = build(seed_for("c19d-extra", ctx.seed, arch, size, bs, extra))
+                g2 = torch.Generator().manual_seed(seed_for("c19x-extra", ctx.seed, arch, size, bs, extra))
+                x2 = torch.rand(bs, 3, size, size, generator=g2)
+                out2 = fwd2(x2)
+                tgt2 = x2 if not meta2.get("noma") else torch.stack([x2, x2.flip(0)], dim=1)
+                ((out2 - tgt2) ** 2).mean().backward()
+                mods2 = list(enc2) if isinstance(enc2, torch.nn.ModuleList) else [enc2]
+                alive = set()
+                for mi, m_ in enumerate(mods2):
+                    for pn, p_ in m_.named_parameters():
+                        if p_.grad is not None and float(p_.grad.abs().max()) > 0:
+                            alive.add(f"{mi}.{pn}")
+                never = [k_ for k_ in never if k_ not in alive]
             ctx.check(not bad_nonfinite, "backward finite (anomaly mode)", f"{arch}|-|backward finite (anomaly mode)|non-finite parameter gradient", parameters=bad_nonfinite[:5])
             ctx.check(not never, "deepjscc:every encoder parameter gets a finite non-zero gradient", f"{arch}|-|deepjscc:every encoder parameter gets a finite non-zero gradient|parameter never receives gradient", parameters=never[:8], size=size, batch=bs, total_parameters=len(verdict))
             ctx.note_add(f"encoder_parameters_checked[{arch}]", len(verdict))
